@@ -245,6 +245,7 @@ let rec expr (s : Sexp.t) : query expr =
   | "isnull" -> api_is_null (expr (List.hd l))
   | "isnotnull" -> api_is_not_null (expr (List.hd l))
   | "castas" | "fncast" -> api_cast_as (expr (List.nth l 0)) (hx (List.nth l 1))
+  | "fncastq" -> api_cast_as_quoted (expr (List.nth l 0)) (hx (List.nth l 1)) (n_of_dec (atom (List.nth l 2)))
   | "andapi" -> EBinary (expr (List.nth l 0), BAnd, expr (List.nth l 1))
   | "orapi" -> EBinary (expr (List.nth l 0), BOr, expr (List.nth l 1))
   | "notapi" -> ENot (expr (List.hd l))
